@@ -30,6 +30,11 @@ Flags
     resub          re-subscribes to its source (retry / repeat / while_do / do_while)
 
 do_after_next / do_on_* / do_finally are deliberately NOT here (not exported from reactivex.operators; C40 owns them).
+partition / partition_indexed (not pipeable: return a list), to_future, to_marbles are not here either.
+
+Shapes that never finish in virtual time are avoided by construction: the closing sources of window_when / buffer_when
+come from g.delayed_src() (a closing observable that fires in the instant it is subscribed re-opens a window in the same
+instant, forever); expand's mapper returns the empty source after a few calls; repeat/retry/while_do are bounded.
 """
 from __future__ import annotations
 
@@ -43,7 +48,7 @@ from reactivex.observer import Observer
 from reactivex.subject import ReplaySubject, Subject
 
 from . import registry as R
-from .vlab import Lab, SrcErr, gen_timeline
+from .vlab import Lab, ProbeSource, SrcErr, gen_timeline
 
 SUB_AT = 100.0          # virtual time at which the harness subscribes
 HOT_START = 85.0        # hot timelines start a little earlier, so that some elements are missed
@@ -79,6 +84,16 @@ class IterSource(Observable):
                                        lambda: lab.add("emit", name, sid, "C", None)))
         inner = body.subscribe(observer, scheduler=scheduler)
         return CompositeDisposable(inner, Disposable(lambda: lab.add("unsub", name, sid)))
+
+
+class ThrowingSyncSource(ProbeSource):
+    """Non-conforming synchronous source whose subscribe function raises after it has emitted everything (terminal
+    notification included): Observable.subscribe must not turn that exception into a second terminal call."""
+
+    def _subscribe_core(self, observer: Any, scheduler: Any = None) -> abc.DisposableBase:
+        super()._subscribe_core(observer, scheduler)
+        self.lab.add("note", "subscribe_raises", self.name)
+        raise SrcErr("subscribe of %s raised" % self.name)
 
 
 class _Pulled:
@@ -134,6 +149,9 @@ class Gen:
             src = self.lab.cold(name, msgs, nonconf=nonconf)
         elif kind == "hot":
             src = self.lab.hot(name, msgs, nonconf=nonconf)
+        elif nonconf and r.random() < 0.4:
+            src = ThrowingSyncSource(self.lab, name, msgs, "sync", nonconf=True)
+            kind = "sync+subscribe-raises"
         else:
             src = self.lab.sync(name, msgs, nonconf=nonconf)
         self.sources.append(src)
@@ -220,10 +238,6 @@ def entry(name: str, flags: str = "") -> Callable:
         BY_NAME[name] = e
         return f
     return deco
-
-
-def _simple(name: str, flags: str, build: Callable[[Gen], tuple]) -> None:
-    entry(name, flags)(build)
 
 
 def _mapper(g: Gen, role: str = "mapper") -> tuple:
